@@ -414,31 +414,7 @@ func TestVerifC25Placement(t *testing.T) {
 			st2 := vc24TokenV2(t, rt, owner, user.NewFromECDSAPublicKey(cl.nodeSessions[c.through].signer.ECDSAPrivateKey.PublicKey))
 			rootID, err = vc24Stream(cl.nodeServices[c.through], &hdr, [][]byte{payload}, nil, st2)
 		}
-		// suspected-defect classes of the EC rule loop of saveObject (honoured only when listed as open)
-		known := func() bool {
-			if c.signed || len(c.ec) == 0 {
-				return false
-			}
-			dup, dupAfterDisabled := false, false
-			for j := range c.ec {
-				for i := 0; i < j; i++ {
-					if c.ec[i] == c.ec[j] {
-						dup = true
-						if c.limits != nil && c.limits[len(c.rep)+i] == 0 && c.limits[len(c.rep)+j] != 0 {
-							dupAfterDisabled = true
-						}
-					}
-				}
-			}
-			return len(c.rep) > 0 && rec.Known("C25:ec-parts-indexed-by-list-index") ||
-				c.maxRepl > 0 && c.prefLoc && rec.Known("C25:maxreplicas-ec-failure-takes-list-index-for-position") ||
-				dupAfterDisabled && rec.Known("C25:disabled-first-copy-skips-enabled-duplicate") ||
-				dup && rec.Known("C25:identical-ec-rules-use-first-list")
-		}
 		if errors.Is(err, errVC24Panic) {
-			if known() {
-				return
-			}
 			rt.Fatalf("C25: %v\n%s", err, c.describe)
 		}
 
@@ -517,9 +493,6 @@ func TestVerifC25Placement(t *testing.T) {
 			return // an error / incomplete result promises nothing
 		}
 		if e := vc25Demand(c, rootID, acks); e != nil {
-			if known() {
-				return
-			}
 			rt.Fatalf("C25 violation: PUT reported full success but %v\n%s\nacks=%s", e, c.describe, vc25Acks(acks))
 		}
 	})
